@@ -50,6 +50,12 @@ def run_conn(res, whiches, prop_filter=None, timeout=900, with_responder=False, 
         res.mismatches.append({"family": "conn/" + r["scenario"], "params": r["params"], "diag": diag_txt.get(d, d), "at_event": i,
                                "events_around": evs[max(0, i - 8):i + 3],
                                "note": "the recorded trace is not a behaviour of Conn.step (variant repaired_c)"})
+    pbad, pn, pe = conncommon.validate_readpipe(res, ws_runs, res.prop)
+    for r, c, i, evs in pbad:
+        res.mismatches.append({"family": "conn/" + r["scenario"], "params": {k: v for k, v in (r["params"] or {}).items() if k != "streams"},
+                               "diag": "reader-pipeline event not enabled in the model (a second frame in the pipeline, a frame executed out of nowhere, a reader that is not re-armed)",
+                               "conn": c, "at_event": i, "events_around": evs[max(0, i - 8):i + 3], "note": "the recorded reader events are not a behaviour of ReadPipe.rstep"})
+    res.add_cov(readpipe_traces_validated=pn - len(pbad), readpipe_events=pe)
     if with_keepalive:
         kbad, kitems = conncommon.validate_keepalive(res, ws_runs, res.prop)
         ktxt = {1: "the deadline model (fires T after the last re-arming, never before) disagrees with the observed reader error / its absence",
